@@ -54,6 +54,17 @@ func runC15(cfg *vh.Config) error {
 			prof.Supported, prof.Wild = false, 5
 		}
 		c := descgen.Generate(r.Fork(fmt.Sprintf("c15-%d-%d", len(cases), invalid)), prof, deps)
+		if len(cases)%8 == 5 {
+			// a valid j5s package compiled by the real compiler (the C02 generator)
+			jc, jerr := descgen.GenerateJ5S(r.Fork(fmt.Sprintf("c15-j5s-%d-%d", len(cases), invalid)))
+			if jerr != nil {
+				invalid++
+				res.Count("j5s-package-not-compiled")
+				continue
+			}
+			c = jc
+			prof.CrossPkg = false
+		}
 		files, b, lerr := descgen.Link(c.Set())
 		if lerr != nil {
 			invalid++
@@ -155,7 +166,7 @@ func runC15(cfg *vh.Config) error {
 				}
 				in["step"] = o.Step
 				if c.collides && reConfusion.MatchString(sig+" "+got) {
-					sig = "C15 two descriptors with the same split name (package, names joined by _) -> type confusion in " + o.Step
+					sig = "C15 two descriptors with the same split name (package, names joined by _) -> type confusion in the reader"
 				}
 				res.Fail(vh.Failure{Case: c.id, Stream: o.Step, Sig: sig, Clause: clause, Input: in, Got: got})
 			}
